@@ -296,7 +296,9 @@ def rd_files_info(f):
                 files[i]["emptystream"] = bits[i]
                 if bits[i]:
                     nempty = nempty + 1
-        elif t == K_EMPTY_FILE or t == K_ANTI:
+        elif t == K_ANTI:
+            raise FormatError("anti-items are outside this reference (py7zr does not support them and says so)")
+        elif t == K_EMPTY_FILE:
             bits = rd_bits(g, nempty)
             k = 0
             for i in range(n):
@@ -335,10 +337,17 @@ def rd_files_info(f):
                 else:
                     files[i]["attributes"] = None
         elif t == K_STARTPOS:
-            pass
+            defined = rd_defined(g, n)
+            if rd_byte(g) != 0:
+                raise FormatError("external start positions")
+            for i in range(n):
+                if defined[i]:
+                    files[i]["startpos"] = rd_fixed(g, 8)
+                else:
+                    files[i]["startpos"] = None
         else:
             raise FormatError("unknown file property")
-        if t != K_STARTPOS and g.tell() != size:
+        if g.tell() != size:
             raise FormatError("property size does not match its content")
     return files
 
